@@ -161,7 +161,9 @@ def batch(arg):
         for n in range(arg["count"]):
             opts = {"nstmts": rnd.randint(3, 8),
                     "depth": rnd.choice([1, 2, 2, 3]),
-                    "exitcycle": rnd.random() < 0.3,
+                    "exitcycle": rnd.random() < 0.35,
+                    "named": rnd.random() < 0.7,
+                    "same_operands": rnd.random() < 0.5,
                     "where_hazard": rnd.choice(
                         [None, None, None, None, "nonelemental",
                          "mixed_notation", "stride", "elem_operand"])}
